@@ -175,7 +175,7 @@ CHECKS = {
              "returned is advertised by the peer, lacked by the client, not being fetched unless fewer than ten remain, and no "
              "other such piece is advertised by fewer peers; nothing is returned exactly when no such piece exists (C13_pick, "
              "C13_pick_spec; sortedness + permutation of the insertion sort). Tie: random manager states set in the real "
-             "Session, choose_piece_index called repeatedly; membership of every pick in the allowed set (C13_allowed).",
+             "Session, choose_piece_index called repeatedly; membership of every pick in the allowed set, which is exactly the set of picks the relation accepts (C13_allowed, C13_allowed_complete).",
         note="The implementation's thread_rng shuffle cannot be replayed, hence membership rather than equality. No axioms.",
         technique="Coq proof (Permutation/StronglySorted) + membership correspondence on the real Session",
         design="2/C13"),
